@@ -26,7 +26,7 @@ func xmlAttrEscape(s string) string {
 var c16ids = []string{"b3c2-uuid-4f", "", "a<b", "'q'", "é", strings.Repeat("i", 200), "with two  spaces", "a&b", "0"}
 var c16replies = []string{"handshake", "error-conflict", "error-host-unknown", "error-not-authorized", "message", "features", "malformed", "close",
 	"handshake-cut", "handshake-then-stream-close", "handshake-bad-entity", "handshake-bad-end-tag",
-	"unknown-namespace-then-handshake", "unknown-name-then-handshake", "handshake-other-namespace"}
+	"unknown-namespace-then-handshake", "unknown-name-then-handshake", "handshake-other-namespace", "handshake-client-namespace", "handshake-server-namespace"}
 
 func c16reply(r string) string {
 	switch r {
@@ -60,6 +60,11 @@ func c16reply(r string) string {
 		return "<blob/><handshake/>"
 	case "handshake-other-namespace":
 		return "<handshake xmlns='urn:other'/>"
+	// an element called handshake in one of the other namespaces the library decodes stanzas of
+	case "handshake-client-namespace":
+		return "<handshake xmlns='jabber:client'/>"
+	case "handshake-server-namespace":
+		return "<handshake xmlns='jabber:server'/>"
 	}
 	return ""
 }
@@ -83,7 +88,7 @@ func c16class(s string) string {
 // second connections of the same Component (what StreamManager does after a loss): ids and replies of the
 // second stream
 var c16ids2 = []string{"second-stream-id", "b3c2-uuid-4f", ""}
-var c16replies2 = []string{"handshake", "error-not-authorized", "message", "close"}
+var c16replies2 = []string{"handshake", "error-not-authorized", "message", "close", "handshake-client-namespace"}
 
 func c16body(secret string, rounds int) func() {
 	return func() {
@@ -96,9 +101,17 @@ func c16body(secret string, rounds int) func() {
 			ids = append(ids, c16ids2[vrt.ChooseFree("streamid2", len(c16ids2))])
 			replies = append(replies, c16replies2[vrt.ChooseFree("reply2", len(c16replies2))])
 		}
+		// how an established first session ends: the component disconnects (the server just closes) / the component
+		// disconnects, waits for the server's stream close (ConnectTimeout set) and gets it / the server ends the stream
+		ending := "disconnect"
+		if rounds == 2 && replies[0] == "handshake" {
+			ending = []string{"disconnect", "disconnect-acknowledged", "server-ends-stream"}[vrt.ChooseFree("ending", 3)]
+			hx.Symbol("ending=" + ending)
+		}
 		for _, r := range replies {
 			hx.Symbol("reply=" + r)
 		}
+		var curSrv *srvConn
 		w := vnet.NewWorld()
 		var hs []string
 		var srvUnits []string
@@ -141,8 +154,12 @@ func c16body(secret string, rounds int) func() {
 					s.send("<message from='x@example.org' to='comp.example.org' id='probe'><body>probe</body></message>")
 					probeSent = true
 				}
+				curSrv = s
 				for {
 					u := s.read()
+					if u.kind == "close" && ending == "disconnect-acknowledged" {
+						s.send("</stream:stream>")
+					}
 					if u.kind == "eof" || u.kind == "close" {
 						s.close()
 						return
@@ -162,6 +179,9 @@ func c16body(secret string, rounds int) func() {
 		var events []ConnState
 		opts := ComponentOptions{TransportConfiguration: TransportConfiguration{Address: "example.org:5347", Domain: "comp.example.org"},
 			Domain: "comp.example.org", Secret: secret, Name: "t", Category: "gateway", Type: "service"}
+		if ending == "disconnect-acknowledged" {
+			opts.ConnectTimeout = 5
+		}
 		comp, err := NewComponent(opts, router, func(error) { vrt.Log("errorhandler") })
 		if err != nil {
 			vrt.Fail("C16|harness|newcomponent", "%v", err)
@@ -226,7 +246,13 @@ func c16body(secret string, rounds int) func() {
 			}
 			if round+1 < rounds {
 				if err == nil {
-					comp.Disconnect()
+					if ending == "server-ends-stream" && curSrv != nil {
+						curSrv.send("</stream:stream>")
+						vrt.WaitIdle()
+						curSrv.close()
+					} else {
+						comp.Disconnect()
+					}
 				}
 				vrt.WaitIdle()
 			}
